@@ -1471,14 +1471,20 @@ def Calc_projector(oldMesh: Mesh, newMesh: Mesh) -> sp.csr_matrix:
     columns: list[int] = []
     values: list[float] = []
 
+    # A node lying on a shared edge / face is detected in several elements, but
+    # coordo_n only holds its coordinates in the last one: use that element only.
+    assigned = np.zeros(newMesh.Nn, dtype=bool)
+
     def FuncExtend_Proj(element: int, nodes: _types.IntArray):
+        nodes = nodes[~assigned[nodes]]
+        assigned[nodes] = True
         values.extend(np.ravel(phi_n_nPe[nodes]))
         lines.extend(np.repeat(nodes, nPe))
         columns.extend(np.asarray(list(connect_e[element]) * nodes.size))
 
     [
-        FuncExtend_Proj(element, np.asarray(connect))
-        for element, connect in zip(detectedElements_e, connect_e_n)
+        FuncExtend_Proj(element, np.asarray(connect, dtype=int))
+        for element, connect in zip(detectedElements_e[::-1], connect_e_n[::-1])
     ]
 
     proj = sp.csr_matrix(
